@@ -200,6 +200,40 @@ func cmdCheck(args []string) {
 	}
 	wg.Wait()
 
+	// Baseline writing: the first pass runs many solver processes at once; obligations it leaves undecided get a
+	// second, nearly sequential attempt with the same budget so that "unclaimed" means "not provable within the base
+	// budget", not "starved of CPU".
+	if *writeBaseline {
+		type job2 struct {
+			vc *VC
+			o  *Oblig
+		}
+		var again []job2
+		for _, r := range results {
+			if r == nil || r.err != nil || r.vc == nil {
+				continue
+			}
+			for _, o := range r.vc.obligs {
+				if o.Status != "unsat" && o.Status != "sat" && o.Status != "skipped" {
+					again = append(again, job2{r.vc, o})
+				}
+			}
+		}
+		sem2 := make(chan struct{}, 4)
+		var wg2 sync.WaitGroup
+		for _, j := range again {
+			wg2.Add(1)
+			sem2 <- struct{}{}
+			go func(j job2) {
+				defer wg2.Done()
+				defer func() { <-sem2 }()
+				sub := &VC{P: P, tt: j.vc.tt, items: j.vc.items, obligs: []*Oblig{j.o}}
+				sub.dischargeWith(timeout, 1, "", nil)
+			}(j)
+		}
+		wg2.Wait()
+		retried = len(again)
+	}
 	// A claimed obligation that comes back undecided (timeout) is retried alone with a long budget before it is
 	// reported: on a loaded machine the parallel first pass can starve a solver that needs milliseconds.
 	if !*writeBaseline {
